@@ -1471,7 +1471,7 @@ func (in *Interp) checkIndex(idx BV, n int) int {
 
 func (in *Interp) indexAddr(fr *frame, x *ssa.IndexAddr) Value {
 	v := force(in.get(fr, x.X))
-	idx := in.get(fr, x.Index).(BV)
+	idx := in.convertBV(in.get(fr, x.Index).(BV), isSigned(x.Index.Type()), 64)
 	var elems []Value
 	switch s := v.(type) {
 	case Slice:
@@ -1492,8 +1492,8 @@ func (in *Interp) indexAddr(fr *frame, x *ssa.IndexAddr) Value {
 }
 
 func (in *Interp) index(fr *frame, x *ssa.Index) Value {
-	v := in.get(fr, x.X)
-	idx := in.get(fr, x.Index).(BV)
+	v := force(in.get(fr, x.X))
+	idx := in.convertBV(in.get(fr, x.Index).(BV), isSigned(x.Index.Type()), 64)
 	switch s := v.(type) {
 	case Array:
 		i := in.checkIndex(idx, len(s.E))
@@ -1573,7 +1573,7 @@ func (in *Interp) mapLen(m *MapObj) BV {
 func (in *Interp) lookup(fr *frame, x *ssa.Lookup) Value {
 	v := in.get(fr, x.X)
 	if s, ok := v.(Str); ok {
-		return in.strIndex(s, in.get(fr, x.Index).(BV))
+		return in.strIndex(s, in.convertBV(in.get(fr, x.Index).(BV), isSigned(x.Index.Type()), 64))
 	}
 	m := v.(*MapObj)
 	vt := x.X.Type().Underlying().(*types.Map).Elem()
